@@ -20,6 +20,11 @@ func Hostile(t *rapid.T, label, marker string) string {
 	if len(s) > 2000 {
 		s = s[:2000]
 	}
+	// one string in ten is dressed up as a single encoded-word (so that it starts with "=?" and ends
+	// with "?="), whatever it contains
+	if rapid.IntRange(0, 9).Draw(t, label+"-wrapew") == 0 {
+		s = rapid.SampledFrom([]string{"=?UTF-8?q?", "=?utf-8?B?", "=?x?q?"}).Draw(t, label+"-ewhead") + strings.ReplaceAll(s, "?", "") + "?="
+	}
 	return s
 }
 
@@ -141,6 +146,7 @@ func HostileSingles(marker string) []string {
 		marker + "\r\n\r\ninjected body " + marker, marker + "\n\ninjected body", marker + "\r\n X-Inj-" + marker + ": folded",
 		"\r\nX-Inj-" + marker + ": leading", marker + "\r\n", marker + "\r", marker + "\n",
 		marker + " =?UTF-8?q?evil?=", "=?UTF-8?q?" + marker + "?=", marker + "=?utf-8?b?ZXZpbA==?=",
+		"=?UTF-8?q?" + marker + "\r\nX-Inj-" + marker + ": 1 ?=", "=?UTF-8?b?" + marker + "\r\n\r\ninjected body?=", "=?UTF-8?q?" + marker + "\nBcc: x@verif.example\n?=", "=?x?Q?" + marker + "\x00\xff caf\u00e9?=",
 		marker + strings.Repeat("x", 300), marker + " " + strings.Repeat("word ", 60), marker + strings.Repeat("\u00e9", 120),
 		marker + "Content-Type: text/html", marker + "\r\nContent-Type: text/html\r\n", marker + "\r\n--boundary--", marker + "\r\n.\r\n",
 		marker + "\r\nBcc: x@verif.example",
